@@ -238,9 +238,16 @@ func (a *analysis) keywords() {
 		str   string
 	}
 	seen := map[item]bool{}
+	const budget = 200000 // trie nodes; the real keyword trie has a few hundred
+	exhausted := false
 	var walk func(it item, depth int)
 	walk = func(it item, depth int) {
-		if depth > 40 || seen[it] {
+		if depth > 40 || seen[it] || exhausted {
+			return
+		}
+		if len(seen) >= budget {
+			exhausted = true
+			m.problem(token.NoPos, "K2: the keyword trie does not close after %d nodes (a keyword state without a resolved successor?)", budget)
 			return
 		}
 		seen[it] = true
